@@ -13,7 +13,8 @@ RULE = ("scripted fake storage service under S3VersionUtil.list_versions / get: 
         "allowed), every page size from 1 to N+1 in the thorough tier (sampled in quick), windows cutting pages, ending exactly on timestamps, "
         "open-ended on either side or both, sampling steps 1-4, every subset of failing downloads up to 2^6 then sampled; returned version ids, the "
         "number of list requests, the rows and their per-version timestamps are compared inside Coq with the model and with the plain filter of "
-        "the whole listing. distinct = (N, page size, window kind, step, number of failures); non-trivial = N >= 2 and more than one page")
+        "the whole listing; 40 (thorough: 600) more histories go through VersionedDataHandler's and S3VersionUtil's own constructors with the window given as ISO strings "
+        "that carry an explicit offset and a requested timezone. distinct = (N, page size, window kind, step, number of failures); non-trivial = N >= 2 and more than one page")
 
 T0 = 1_700_000_000
 
@@ -158,6 +159,87 @@ def encode(o):
             f"check_get {lv} {step}%nat {llit([zlit(i) for i in o['fails']])} {zlit(g['code'])} {llit([f'({zlit(a)}, {zlit(b)})' for a, b in g['rows']])})")
 
 
+def handler_job(seed):
+    """the same through the real constructors: VersionedDataHandler(start_date=..., end_date=..., tzinfo=...) with ISO strings that carry an explicit
+    offset builds its S3VersionUtil (session and transfer manager replaced by the scripted fakes); window = the instants the strings denote"""
+    from harness import run_impl
+
+    run_impl._imp()
+    import elexmodel.handlers.s3 as s3mod
+    from elexmodel.handlers.data.VersionedData import VersionedDataHandler
+
+    rng = random.Random(seed)
+    n = rng.choice([0, 1, 3, 6, 9, 14])
+    page = rng.randint(1, max(1, n))
+    lm = sorted([T0 + rng.randint(0, 3 * max(1, n)) * 600 for _ in range(n)], reverse=True)
+    versions = [{"id": i, "lm": t} for i, t in enumerate(lm)]
+    lo, hi = (min(lm) if lm else T0), (max(lm) if lm else T0 + 600)
+    pick = lambda: rng.choice(lm) if lm and rng.random() < 0.5 else rng.randint(lo - 1200, hi + 1200)  # noqa: E731
+    start, stop = rng.choice([None, pick()]), rng.choice([None, pick()])
+    if start is not None and stop is not None and start > stop:
+        start, stop = stop, start
+    off = rng.choice([0, -5, -8, 5.5, -6, 1])
+    tzname = rng.choice(["America/New_York", "America/Chicago", "UTC", "America/Los_Angeles"])
+    iso = lambda ts: None if ts is None else dt.datetime.fromtimestamp(ts, tz=dt.timezone(dt.timedelta(hours=off))).isoformat()  # noqa: E731
+    step = rng.randint(1, 3)
+    fake = FakeClient(versions, page)
+
+    class Sess:
+        def create_client(self, name, *a, **k):
+            return fake
+
+    res = {"seed": seed, "ok": True, "exc": None, "versions": versions, "start": start, "stop": stop, "iso": [iso(start), iso(stop)], "tz": tzname, "page": page, "step": step}
+    orig = (s3mod.get_session, s3mod.TransferManager)
+    s3mod.get_session, s3mod.TransferManager = (lambda: Sess()), (lambda client, *a, **k: FakeManager(set()))
+    try:
+        h = VersionedDataHandler("2099-11-03_USA_G", "S", "county", estimands=["margin"], start_date=iso(start), end_date=iso(stop), sample=step, tzinfo=tzname)
+        listed = h.s3_client.list_versions("some/key.csv")
+        res["listed"] = [int(v["VersionId"]) for v in listed]
+        df = h.s3_client.get("some/key.csv", sample=step)
+        if df is None:
+            res["rows"] = None
+        else:
+            res["rows"] = [(int(r["vid"]), int(r["results_dem"]), int(r["last_modified"].timestamp()), str(r["last_modified"].utcoffset())) for _, r in df.iterrows()]
+        import zoneinfo
+        res["want_offsets"] = {v["id"]: str(dt.datetime.fromtimestamp(v["lm"], tz=zoneinfo.ZoneInfo(tzname)).utcoffset()) for v in versions}
+    except Exception as e:  # noqa: BLE001
+        res["ok"] = False
+        res["exc"] = (type(e).__name__, str(e)[:200])
+    finally:
+        s3mod.get_session, s3mod.TransferManager = orig
+    return res
+
+
+def handler_oracle(o):
+    fails = []
+    vs = o["versions"]
+    want = [v["id"] for v in vs if (o["start"] is None or v["lm"] >= o["start"]) and (o["stop"] is None or v["lm"] <= o["stop"])]
+    if o["listed"] != want:
+        fails.append({"what": f"VersionedDataHandler(start_date={o['iso'][0]!r}, end_date={o['iso'][1]!r}, tzinfo={o['tz']!r}): listed versions {o['listed'][:8]} but the "
+                              f"instants the two strings denote enclose {want[:8]} (N={len(vs)}, page size {o['page']})", "kind": "window"})
+        return fails
+    byid = {v["id"]: v["lm"] for v in vs}
+    sampled = want[::o["step"]]
+    if not want:
+        if o["rows"] is not None:
+            fails.append({"what": "nothing in the window but get() did not return None", "kind": "none"})
+        return fails
+    rows = o["rows"] or []
+    got_ids = []
+    for vid, dem, ts, offs in rows:
+        if not got_ids or got_ids[-1] != vid:
+            got_ids.append(vid)
+        if dem not in (vid, vid + 1):
+            fails.append({"what": f"a row stamped as version {vid} carries the content of version {dem}", "kind": "content"})
+            break
+        if byid.get(vid) != ts or offs != o["want_offsets"].get(vid):
+            fails.append({"what": f"rows of version {vid} are stamped {ts} ({offs}) but the version was modified at {byid.get(vid)} ({o['want_offsets'].get(vid)} in {o['tz']})", "kind": "stamp"})
+            break
+    if not fails and got_ids != sampled:
+        fails.append({"what": f"rows come from versions {got_ids[:8]}, every {o['step']}-th listed version is {sampled[:8]}", "kind": "sampling"})
+    return fails
+
+
 def s_oracle(o):
     fails = []
     vs = o["versions"]
@@ -227,12 +309,27 @@ def run(chk):
         if r != "(true, true)" and not s:
             chk.violation(f"implementation differs from the paging model ({r}) although the C19 predicate holds (N={n}, page {page})",
                           dict(replay, correspondence="coq/Model/Paging.v check_list / check_get"), {"kind": "model-diff"}, no_input=True)
+    # the same through VersionedDataHandler's and S3VersionUtil's own constructors, window given as ISO strings with explicit offsets
+    for o in core.pmap(handler_job, [rng.randint(0, 2**31) for _ in range(40 if chk.tier == "quick" else 600)], chunksize=8):
+        chk.count({"handler": True, "n": len(o["versions"]), "tz": o["tz"], "open": [o["start"] is None, o["stop"] is None]}, nontrivial=len(o["versions"]) >= 2,
+                  sample={"stream": "through the handler's constructor", "start_date": o["iso"][0], "end_date": o["iso"][1], "tzinfo": o["tz"], "listed": o.get("listed")} if len(o["versions"]) == 3 else None)
+        rp = {"kind": "c19-handler", "seed": o["seed"]}
+        if not o["ok"]:
+            chk.violation(f"retrieval through VersionedDataHandler raised {o['exc']}", rp, {"kind": "raises", "where": "handler"})
+            continue
+        for f in handler_oracle(o):
+            chk.violation(f["what"], rp, {"kind": f["kind"], "where": "handler"})
     if not ok and not [v for v in chk.violations if not v["no_input"]]:
         chk.violation("proof obligations of C19 no longer check", {"theorem_file": "coq/Properties/C19.v", "log": rep.get("log_tail", "")[-1500:]}, {"kind": "proof-broken"}, no_input=True)
     return chk.finish(RULE)
 
 
 def replay(chk, payload):
+    if payload["replay"].get("kind") == "c19-handler":
+        o = handler_job(payload["replay"]["seed"])
+        fl = handler_oracle(o) if o["ok"] else [{"what": str(o["exc"])}]
+        print(json.dumps({"iso": o["iso"], "tz": o["tz"], "listed": o.get("listed"), "fails": fl}, indent=1, default=str))
+        return 1 if fl else 0
     o = worker(tuple(payload["replay"]["job"]))
     print(json.dumps({k: o.get(k) for k in ("ok", "exc", "listed", "requests", "get", "start", "stop")}, indent=1, default=str))
     return 1 if (not o["ok"] or s_oracle(o)) else 0
